@@ -81,22 +81,37 @@ def special_cross_kind(rng):
         t = '<radialGradient id="t" %s>%s</radialGradient>' % (common, stops)
         g = ('<linearGradient id="g" xlink:href="#t" x1="20" x2="35" gradientUnits="userSpaceOnUse"/>' if "userSpaceOnUse" in common
              else '<linearGradient id="g" xlink:href="#t" x1="0.2" x2="0.35"/>')
+    if rng.random() < 0.5:
+        # every field of the gradient dataclass is inherited, the focal radius too
+        t = '<radialGradient id="t" cx="40" cy="40" r="30" fr="%d" fx="%d" gradientUnits="userSpaceOnUse">%s</radialGradient>' % (rng.randint(4, 9), rng.randint(36, 44), stops)
+        g = '<radialGradient id="g" xlink:href="#t"%s/>' % rng.choice(["", ' cy="45"', ' gradientTransform="translate(6 3)"'])
     defs = [t, g]
     rng.shuffle(defs)
     return ('<svg xmlns="http://www.w3.org/2000/svg" xmlns:xlink="http://www.w3.org/1999/xlink" viewBox="0 0 100 100"><defs>%s</defs>'
             '<rect x="5" y="5" width="90" height="80" fill="url(#g)"/></svg>' % "".join(defs))
 
 
-def special(rng):
+_calls = [0]
+
+
+def special(rng, force=None):
     """user-space gradients whose coordinates are percentages of a non-square viewport"""
+    # the first documents of every run go once through each special kind (so that none is missing by chance)
+    _calls[0] += 1
+    if _calls[0] <= 6:
+        for _ in range(40):
+            d = [special_cross_kind, special_cross_kind, special_template_order, special_stroke, special_cross_kind, special_template_order][_calls[0] - 1](rng)
+            if _calls[0] not in (1, 5) or 'fr="' in d:
+                return d
+        return d
     k = rng.random()
-    if k < 0.035:
+    if k < 0.05:
         return special_cross_kind(rng)
-    if k < 0.07:
+    if k < 0.10:
         return special_template_order(rng)
-    if k < 0.14:
+    if k < 0.17:
         return special_stroke(rng)
-    if k > 0.26:
+    if k > 0.29:
         return None
     w, h = rng.choice([(120, 80), (90, 140), (200, 100)])
     def pc(lo, hi):
@@ -110,8 +125,10 @@ def special(rng):
         tag = "linearGradient"
     stops = '<stop offset="0" stop-color="red"/><stop offset="0.6" stop-color="blue"/><stop offset="1" stop-color="lime"/>'
     tr = rng.choice(["", ' transform="translate(5 3)"', ' transform="scale(0.9) rotate(10)"'])
-    return ('<svg xmlns="http://www.w3.org/2000/svg" viewBox="0 0 %d %d"><defs>%s%s</%s></defs><rect x="%d" y="%d" width="%d" height="%d" fill="url(#g)"%s/></svg>'
-            % (w, h, g, stops, tag, w // 10, h // 10, w * 7 // 10, h * 7 // 10, tr))
+    # the viewBox need not start at the origin: percentages are fractions of its width and height, not positions in it
+    ox, oy = rng.choice([(0, 0), (0, 0), (-40, -30), (25, 10)])
+    return ('<svg xmlns="http://www.w3.org/2000/svg" viewBox="%d %d %d %d"><defs>%s%s</%s></defs><rect x="%d" y="%d" width="%d" height="%d" fill="url(#g)"%s/></svg>'
+            % (ox, oy, w, h, g, stops, tag, ox + w // 10, oy + h // 10, w * 7 // 10, h * 7 // 10, tr))
 
 
 P = RenderProp(features, "color", n_quick=110, n_thorough=700, nontrivial=nontrivial, special=special)
